@@ -84,6 +84,26 @@ def sn2_specs():
     return out
 
 
+def extra_contact_specs():
+    """centres / stereo bonds with a bonded neighbour that the descriptor does not mention (a fleeting contact, a hand-set descriptor
+    with a placeholder): S may hold every atom of the descriptor and not that neighbour - the descriptor stays"""
+    out = []
+    atoms = [(0, "C"), (1, "F"), (2, "Cl"), (3, "Br"), (4, "H")]
+    star = [(0, 1), (0, 2), (0, 3), (0, 4)]
+    t = ("Tetrahedral", (0, 1, 2, 3, None), 1)
+    out.append(U.mk(SMG, atoms, star, astereo=[t]))
+    out.append(U.mk(SCRG, atoms, star[:3] + [(0, 4, "FLEETING")], astereo=[t]))
+    out.append(U.mk(SCRG, atoms, star[:3] + [(0, 4, "FORMED")], achg={0: {"BROKEN": t, "FORMED": ("Tetrahedral", (0, 1, 2, 3, 4), 1)}}))
+    atoms6 = atoms + [(5, "O")]
+    out.append(U.mk(SMG, atoms6, star + [(0, 5)], astereo=[("Tetrahedral", (0, 1, 2, 3, 4), -1)]))
+    batoms = [(0, "C"), (1, "C"), (2, "F"), (3, "Cl"), (4, "H"), (5, "H")]
+    bbonds = [(0, 1), (0, 2), (1, 3), (0, 4), (1, 5)]
+    pb = ("PlanarBond", (2, None, 0, 1, 3, None), 0)
+    out.append(U.mk(SMG, batoms, bbonds, bstereo=[pb]))
+    out.append(U.mk(SCRG, batoms, bbonds[:3] + [(0, 4, "FLEETING"), (1, 5, "BROKEN")], bstereo=[pb]))
+    return out
+
+
 @lru_cache(None)
 def specs(tier):
     S = []
@@ -98,6 +118,7 @@ def specs(tier):
     S += [g for g in U.stars_extra() if len(g.atoms) <= 5]
     S += [U.to_kind(g, SCRG) for g in U.stars_extra() if len(g.atoms) <= 5][::3]
     S += sn2_specs()
+    S += extra_contact_specs()
     out = []
     for i, g in enumerate(S):
         h = g.copy()
